@@ -172,11 +172,14 @@ def api_job(job):
         res["fails"] += cap.fails
         # statement on the captured bounds themselves: ordered, margin bounds inside the naive range
         for c in cap.calls:
-            for uid, lo, hi in zip(c["ids"], c["lo"], c["hi"]):
+            for uid, lo, hi, v in zip(c["ids"], c["lo"], c["hi"], c["val"]):
                 if not (lo <= hi):
                     res["fails"].append({"what": f"unit {uid}: clipping bounds of the {'margin' if c['est'] == 'y' else 'turnout factor'} are not ordered: [{lo}, {hi}]", "kind": "clip-bounds"})
-                elif c["est"] == "y" and not (c["set"][0] - 1e-12 <= lo and hi <= c["set"][1] + 1e-12):
-                    res["fails"].append({"what": f"unit {uid}: margin clipping bounds [{lo}, {hi}] leave the naive range {c['set'][:2]}", "kind": "clip-bounds"})
+                elif c["est"] == "y" and v == v and not (min(c["set"][0], v) - 1e-12 <= lo and hi <= max(c["set"][1], v) + 1e-12):
+                    # (a counted margin outside configured naive bounds of less than +-1 legitimately pulls the interval towards itself: C06_margin_clip_bounds
+                    #  assumes ylo <= counted margin <= yhi)
+                    res["fails"].append({"what": f"unit {uid}: margin clipping bounds [{lo}, {hi}] leave the range spanned by the naive bounds {c['set'][:2]} and the counted margin {v}",
+                                         "kind": "clip-bounds"})
     return res
 
 
